@@ -24,6 +24,7 @@ ASSUMPTIONS = [
 ]
 EXHAUSTIVE = {'quick': False, 'thorough': False}
 PYOPT_KINDS = (None,)
+CLOCALE_KINDS = (None,)
 KNOWN_KEYS = {'blank-line-in-block', 'slashslash-own-line', 'eof-trailing-space-newline', 'table-trailing-separator-dedent'}
 OPEN_KW = (b'then', b'do', b'repeat')
 OPEN_SYM = (b'(', b'{', b'[')
